@@ -3,4 +3,6 @@ Require Import Props.C16.
 Set Printing Width 160.
 Set Printing Depth 1000.
 Check @feature_invariance.
+Check @debug_asserts_never_fire.
 Print Assumptions feature_invariance.
+Print Assumptions debug_asserts_never_fire.
